@@ -35,6 +35,7 @@ func (*Options).populateGlobals returns (err)
   requires @flags-defined CtxDef(c, "database") != 0 && CtxDef(c, "logfile") != 0 && CtxDef(c, "date-format") != 0 && CtxDef(c, "today") != 0
   modifies o.GlobalConfig
   ensures @database err == nil && !CtxIsSet(c, "no-database") ==> o.GlobalConfig.DbFileName == (if CtxIsSet(c, "database") || old(o.GlobalConfig.DbFileName) == "" then CtxString(c, "database") else old(o.GlobalConfig.DbFileName))
+  ensures @no-database err == nil && CtxIsSet(c, "no-database") ==> o.GlobalConfig.DbFileName == ""
   ensures @logfile  err == nil ==> o.GlobalConfig.LogFileName == (if CtxIsSet(c, "logfile") || old(o.GlobalConfig.LogFileName) == "" then CtxString(c, "logfile") else old(o.GlobalConfig.LogFileName))
   ensures @datefmt  err == nil ==> o.GlobalConfig.DateFormat == (if CtxIsSet(c, "date-format") || old(o.GlobalConfig.DateFormat) == "" then CtxString(c, "date-format") else old(o.GlobalConfig.DateFormat))
   ensures @today    err == nil ==> o.GlobalConfig.Now == (if CtxIsSet(c, "today") then ParseTimeVal(o.GlobalConfig.DateFormat, CtxString(c, "today")) else old(o.GlobalConfig.Now))
@@ -146,6 +147,8 @@ func (*Options).Load returns (err)
   ensures @explicit-missing-config [C16] useConfigFile && !FileExists(path) && CtxIsSet(c, "config") ==> err != nil
   ensures @config-is-the-named-file [C16] err == nil && loaded ==> FileNameOf(RdSrc(cfgRd)) == path
   ensures @database [C16] err == nil && !CtxIsSet(c, "no-database") ==> o.GlobalConfig.DbFileName == Prec(CtxIsSet(c, "database"), CtxString(c, "database"), loaded && CfgHas(cfgRd, 1), CfgStr(cfgRd, 1), "food.yaml")
+  // --no-database: no recipe-book file is named; WithFileReaders turns the empty name into an empty input
+  ensures @no-database [C16] err == nil && CtxIsSet(c, "no-database") ==> o.GlobalConfig.DbFileName == ""
   ensures @logfile [C16] err == nil ==> o.GlobalConfig.LogFileName == Prec(CtxIsSet(c, "logfile"), CtxString(c, "logfile"), loaded && CfgHas(cfgRd, 2), CfgStr(cfgRd, 2), "log.yaml")
   ensures @date-format [C16] err == nil ==> o.GlobalConfig.DateFormat == Prec(CtxIsSet(c, "date-format"), CtxString(c, "date-format"), loaded && CfgHas(cfgRd, 3), CfgStr(cfgRd, 3), "2006/01/02")
   ensures @maxdepth [C16] err == nil ==> o.ResolverConfig.MaxDepth == (if CtxIsSet(c, "maxdepth") then IntOfStr(CtxString(c, "maxdepth")) else (if loaded && CfgHas(cfgRd, 5) && CfgInt(cfgRd, 5) != 0 then CfgInt(cfgRd, 5) else 10))
